@@ -150,7 +150,7 @@ def env_hashes(envd: Path) -> Dict[str, str]:
     return out
 
 
-def fresh_observation(env_root: Path, want_store: bool = False) -> dict:
+def fresh_observation_here(env_root: Path, want_store: bool = False) -> dict:
     """open + build a copy of env_root from scratch"""
     tmp = Path(tempfile.mkdtemp(prefix=f"verif-c12f-{os.getpid()}-"))
     try:
@@ -165,6 +165,133 @@ def fresh_observation(env_root: Path, want_store: bool = False) -> dict:
         return obs
     finally:
         shutil.rmtree(tmp, ignore_errors=True)
+
+
+class CleanRoom:
+    """Clean reference builds in processes of their own.
+
+    A clean build is what a newly started `snooty build` delivers. Run inside the process that holds the open project - or that
+    ran the previous reference build - it would share every module-level table of the implementation (memos, registries, caches)
+    with the history under test, and a result remembered there from an earlier state would show up on BOTH sides of the comparison.
+    So a helper process is forked before the history starts (it never builds anything itself), and forks one short-lived child
+    per reference build; the child sends the observation back through a pipe. Any failure of the plumbing falls back to a build
+    in the calling process (the former behaviour)."""
+
+    def __init__(self) -> None:
+        self.pid = None
+        if os.environ.get("VERIF_C12_INPROC"):
+            return
+        try:
+            req_r, req_w = os.pipe()
+            res_r, res_w = os.pipe()
+            pid = os.fork()
+        except OSError:
+            return
+        if pid == 0:
+            try:
+                os.close(req_w)
+                os.close(res_r)
+                self._serve(req_r, res_w)
+            finally:
+                os._exit(0)
+        os.close(req_r)
+        os.close(res_w)
+        self.pid, self.req_w, self.res_r = pid, req_w, res_r
+
+    @staticmethod
+    def _read(fd: int, n: int) -> bytes:
+        buf = b""
+        while len(buf) < n:
+            chunk = os.read(fd, n - len(buf))
+            if not chunk:
+                raise EOFError
+            buf += chunk
+        return buf
+
+    @classmethod
+    def _recv(cls, fd: int) -> Any:
+        n = int.from_bytes(cls._read(fd, 8), "big")
+        return pickle.loads(cls._read(fd, n))
+
+    @staticmethod
+    def _send(fd: int, obj: Any) -> None:
+        data = pickle.dumps(obj)
+        data = len(data).to_bytes(8, "big") + data
+        while data:
+            data = data[os.write(fd, data):]
+
+    def _serve(self, req_r: int, res_w: int) -> None:
+        while True:
+            try:
+                env_root, want_store = self._recv(req_r)
+            except EOFError:
+                return
+            kid = os.fork()
+            if kid == 0:
+                code = 1
+                try:
+                    try:
+                        msg = ("ok", fresh_observation_here(Path(env_root), want_store))
+                    except Exception as e:
+                        try:
+                            pickle.dumps(e)
+                            msg = ("exc", e)
+                        except Exception:
+                            msg = ("exc", RuntimeError(f"{type(e).__name__}: {e}"))
+                    self._send(res_w, msg)
+                    code = 0
+                finally:
+                    os._exit(code)
+            _, status = os.waitpid(kid, 0)
+            if status != 0:
+                self._send(res_w, ("down", status))
+
+    def observe(self, env_root: Path, want_store: bool = False) -> dict:
+        if self.pid is not None:
+            try:
+                import select
+                self._send(self.req_w, (str(env_root), want_store))
+                ready, _, _ = select.select([self.res_r], [], [], 600)
+                if ready:
+                    tag, val = self._recv(self.res_r)
+                    if tag == "ok":
+                        self.served = getattr(self, "served", 0) + 1
+                        return val
+                    if tag == "exc":
+                        raise val
+            except (OSError, EOFError, pickle.PickleError):
+                pass
+            self.close()
+        return fresh_observation_here(env_root, want_store)
+
+    def close(self) -> None:
+        if self.pid is None:
+            return
+        pid, self.pid = self.pid, None
+        for fd in (self.req_w, self.res_r):
+            try:
+                os.close(fd)
+            except OSError:
+                pass
+        try:
+            import signal
+            os.kill(pid, signal.SIGKILL)
+        except OSError:
+            pass
+        try:
+            os.waitpid(pid, 0)
+        except OSError:
+            pass
+
+
+_ROOM: Optional[CleanRoom] = None
+
+
+def fresh_observation(env_root: Path, want_store: bool = False) -> dict:
+    """the clean reference build: in a process of its own while a history runs (see CleanRoom), else in this one"""
+    if _ROOM is not None:
+        return _ROOM.observe(env_root, want_store)
+    return fresh_observation_here(env_root, want_store)
 
 
 def diff_obs(inc: dict, fresh: dict) -> List[dict]:
@@ -197,8 +324,10 @@ def diff_obs(inc: dict, fresh: dict) -> List[dict]:
 
 def run_history(case: dict, want_store: bool = False, alias_probe: bool = True) -> dict:
     """returns {"checks": [ {after: n_ops_applied, diff: None|{...}} ], "exc": None | {...}, "alias": None | str, "stores": [...]}"""
+    global _ROOM
     tmp = Path(tempfile.mkdtemp(prefix=f"verif-c12-{os.getpid()}-"))
     out: Dict[str, Any] = {"checks": [], "exc": None, "alias": None, "stores": [], "repeat": None}
+    room = _ROOM = CleanRoom()   # forked before the project under test is opened
     try:
         root = tmp / "inc"       # the directory the open project watches (real disk)
         envd = tmp / "env"       # disk overlaid with editor buffers = the contents the user sees
@@ -278,4 +407,8 @@ def run_history(case: dict, want_store: bool = False, alias_probe: bool = True) 
                     out["exc"] = {"after": len(ops), "op": "postprocess", "type": type(e).__name__, "where": "?", "msg": str(e)[:200]}
         return out
     finally:
+        out["clean_room"] = getattr(room, "served", 0)
+        room.close()
+        if _ROOM is room:
+            _ROOM = None
         shutil.rmtree(tmp, ignore_errors=True)
